@@ -660,7 +660,63 @@ func c15EmptyLedger(w *core.WorkerCtx) {
 	w.R.Count("c15_empty_ledger_rounds", 2)
 }
 
+// c15ExpiredEntries: several awaiting contracts of one wallet have expired from the cache (their references are still
+// on the wallet's lists, that is how the cache cleans up: on the next read): the Waiting request that meets two, three,
+// all of them expired - first, middle, last in the list - must be answered.
+func c15ExpiredEntries(w *core.WorkerCtx) {
+	rig, err := svc.New(4, 60, 2048)
+	if err != nil {
+		w.R.Inconc("cannot build the node: " + err.Error())
+		return
+	}
+	defer rig.Close()
+	e := &c15env{w: w, rig: rig, rng: core.Rand(w.Seed, "C15expired", w.Batch)}
+	for _, u := range rig.Users {
+		e.addrs = append(e.addrs, u.Addr)
+	}
+	ctx := context.Background()
+	I, R := rig.Users[1], rig.Users[2]
+	seq := 0
+	for _, pattern := range [][]int{{0, 1}, {3, 4}, {1, 3}, {0, 2, 4}, {0, 1, 2, 3, 4}, {2}, {4}, {1, 2, 3}} {
+		var hashes [][32]byte
+		for i := 0; i < 5; i++ {
+			seq++
+			t := ledger.ForgeTrx(I, R.Addr, fmt.Sprintf("expiring %d", seq), []byte("contract"), spice.Melange{}, time.Now().Add(-time.Minute))
+			if p, err := transformers.TrxToProtoTrx(t); err == nil {
+				if _, err := rig.Notary.Propose(ctx, p); err == nil {
+					hashes = append(hashes, t.Hash)
+				}
+			}
+		}
+		for _, k := range pattern {
+			if k < len(hashes) {
+				rig.Cache.VerifExpire(hashes[k])
+			}
+		}
+		shape := fmt.Sprintf("valid request; entries %v of the wallet's 5 newest awaiting contracts have expired", pattern)
+		for _, who := range []*ledger.Actor{R, I} {
+			who := who
+			e.call("notary", "Waiting", shape, true, func() (any, error) {
+				rig.Flash.RemoveAddress(who.Addr)
+				b, err := rig.Notary.Data(ctx, &protobufcompiled.Address{Public: who.Addr})
+				if err != nil {
+					return nil, err
+				}
+				return rig.Notary.Waiting(ctx, svc.Sign(who, b.Blob))
+			})
+		}
+		// what is left is taken out by the receiver
+		for _, h := range hashes {
+			rig.Notary.Reject(ctx, svc.Sign(R, h[:]))
+		}
+	}
+	w.R.Count("c15_expired_entry_patterns", 8)
+}
+
 func c15Worker(w *core.WorkerCtx) {
+	if w.Batch%4 == 0 {
+		c15ExpiredEntries(w)
+	}
 	if w.Batch%4 == 1 {
 		c15Concurrent(w)
 	}
